@@ -463,7 +463,7 @@ func c02Check(ctx *Ctx, stored []byte, cfg c02Cfg, cuts []int, all bool, origin 
 		return nil
 	}
 	s = stored
-	v.Tape = lit
+	v.Tape, v.KeepPrefix = lit, 3
 	v.InputHex = hex.EncodeToString(s)
 	v.Trace = append(append([]string{}, origin...), fmt.Sprintf("stored bytes (%d): %s", len(s), hexShort(s, 96)))
 	v.Signature = v.Invariant
